@@ -16,7 +16,7 @@ def gen_inputs(rnd, n):
             (corpus.EVAL_ERROR_PROFILE, corpus.OK_DOCS[0])] + [(p, d) for p, d, _ in fx]
     sm = [(p, d) for p, d in base if len(d) < 20000]
     out = []
-    for prof in corpus.PARSE_ERROR_PROFILES + corpus.GEN_ERROR_PROFILES + corpus.REGO_ERROR_PROFILES:
+    for prof in corpus.PARSE_ERROR_PROFILES + corpus.GEN_ERROR_PROFILES + corpus.REGO_ERROR_PROFILES + corpus.NON_OBJECT_RESULT_PROFILES:
         out.append((prof, rnd.choice(corpus.OK_DOCS), "unknown"))
     for d in corpus.NO_NODES_DOCS + corpus.NOT_JSON_DOCS + corpus.LD_REJECT_DOCS:
         out.append((rnd.choice([corpus.OK_PROFILE, corpus.OK_PROFILE_NESTED]), d, "ok"))
